@@ -16,7 +16,8 @@ RULE = ("A case is (up to 4 hosts, each good or of one bad-reply class: random b
         "listening window). Part 'interleavings' enumerates every arrival order of the copies for <=3 hosts x <=2 "
         "copies; 'random' draws larger multisets, one fifth of them with auto_connect=True against V2 devices that answer "
         "quickly, slowly or never while late datagrams from known and new addresses keep arriving. Distinct = distinct (host classes, arrival sequence); non-trivial = "
-        ">= 2 datagrams delivered.")
+        ">= 2 datagrams delivered."
+        " Later additions: unicast discovery while other hosts talk to the same socket, copies of one host in both reply formats, a host whose only reply lands in the loop iteration in which the window ends.")
 ASSUMPTIONS = [
     "an exception escaping datagram_received does not close a datagram transport (CPython 3.12 selector_events); the "
     "simulated endpoint behaves the same way",
